@@ -177,6 +177,24 @@ func c07Transition(c *Case, req M) ([]Violation, *State) {
 			}
 		}
 	}
+	// I6b: inline anchoring rewrites the considered alternatives only, unless it is told to apply to the others too —
+	// values of not-considered alternatives (and whatever an earlier bias did to them) stay in force
+	if step.fired && biasLabel(lastB) == "anchoring:inline" {
+		ap := asM(asM(asM(lastB["props"])["applier"])["params"])
+		if on, _ := ap["applyOnNotConsidered"].(bool); !on {
+			pv := map[string]map[string]float64{}
+			for _, a := range prev.NotConsidered {
+				pv[a.ID] = a.Values
+			}
+			for _, a := range next.NotConsidered {
+				for cid, old := range pv[a.ID] {
+					if nv, ok := a.Values[cid]; ok && nv != old {
+						vs = append(vs, viol(c, "C07/value-not-preserved/"+tag, "[%s]: inline anchoring without applyOnNotConsidered changed %s.%s of a not-considered alternative from %v to %v", fmtPath(bs), a.ID, cid, old, nv))
+					}
+				}
+			}
+		}
+	}
 	// I3 + conformance
 	rk, eerr := st.Evaluate()
 	if eerr != nil {
